@@ -141,7 +141,7 @@ def _empty_inits(fn):
 def reference_facts(tree, modname):
     """facts recorded from the reference tree (tools/gen_canon.py)"""
     _strip_docstrings(tree)
-    funcs, comps, digests, loopbuilt, ncomps, compbuilt, parallel = [], {}, {}, {}, {}, {}, {}
+    funcs, comps, digests, loopbuilt, ncomps, compbuilt, parallel, nrets = [], {}, {}, {}, {}, {}, {}, {}
     for q, fn in _all_functions(tree, modname):
         funcs.append(q)
         digests[q] = fn_digest(fn)
@@ -155,13 +155,14 @@ def reference_facts(tree, modname):
                      isinstance(n.targets[0], ast.Name) and isinstance(n.value, ast.ListComp)})
         if cb:
             compbuilt[q] = cb
+        nrets[q] = sum(1 for n in _own_walk(fn) if isinstance(n, ast.Return))
         ncomps[q] = sum(1 for n in ast.walk(fn)
                         if isinstance(n, (ast.ListComp, ast.SetComp, ast.DictComp, ast.GeneratorExp)))
         fps = sorted({comp_fingerprint(n) for n in ast.walk(fn)
                       if isinstance(n, (ast.ListComp, ast.SetComp, ast.DictComp, ast.GeneratorExp))})
         if fps:
             comps[q] = fps
-    return {"functions": funcs, "comps": comps, "digests": digests, "loopbuilt": loopbuilt, "ncomps": ncomps, "compbuilt": compbuilt, "parallel": parallel}
+    return {"functions": funcs, "comps": comps, "digests": digests, "loopbuilt": loopbuilt, "ncomps": ncomps, "compbuilt": compbuilt, "parallel": parallel, "nrets": nrets}
 
 
 # ---------------------------------------------------------------------------------------------- helpers
@@ -1580,6 +1581,37 @@ class _Beta(ast.NodeTransformer):
         return ast.copy_location(body, node)
 
 
+def _resugar_bool_search(fn, ref_nrets, stats):
+    """N8: a function that had a single `return <boolean expression>` in the reference and now answers through a chain of
+    `if c: return True` / `for x in it: if c: return True` / `return False` statements is folded back into the single
+    return (the inverse of what a developer does when writing `any(..)` out as a search loop).  Leading statements without a
+    return (explaining locals) stay in front."""
+    if ref_nrets != 1:
+        return
+    body = fn.body
+    rets = [n for n in _own_walk(fn) if isinstance(n, ast.Return)]
+    if len(rets) < 2:
+        return
+    for i in range(len(body)):
+        if any(isinstance(n, ast.Return) for st in body[:i] for n in ast.walk(st)):
+            return
+        e = _bool_search(body[i:])
+        if e is not None:
+            # any(a and b for x in it) == any(b for x in it if a): the filter form is the one comprehensions are written in
+            for n in ast.walk(e):
+                if isinstance(n, ast.Call) and isinstance(n.func, ast.Name) and n.func.id == "any" and len(n.args) == 1 and \
+                        isinstance(n.args[0], ast.GeneratorExp) and isinstance(n.args[0].elt, ast.BoolOp) and \
+                        isinstance(n.args[0].elt.op, ast.And) and len(n.args[0].generators) == 1:
+                    g = n.args[0]
+                    g.generators[0].ifs = list(g.generators[0].ifs) + list(g.elt.values[:-1])
+                    g.elt = g.elt.values[-1]
+            new = ast.Return(value=e)
+            _loc(new, body[i])
+            fn.body = body[:i] + [new]
+            stats["resugared_bool_search"] = stats.get("resugared_bool_search", 0) + 1
+            return
+
+
 def apply(modname, tree):
     stats = {}
     if os.environ.get("HSA_NO_NORMALIZE") or os.environ.get("HSA_NO_CANON"):
@@ -1600,6 +1632,7 @@ def apply(modname, tree):
     for q, fn in list(_all_functions(tree, modname)):
         if q not in ref_funcs or ref.get("digests", {}).get(q) == fn_digest(fn):
             continue          # new function (analysed as written) / unchanged function (nothing to undo)
+        _resugar_bool_search(fn, ref.get("nrets", {}).get(q), stats)
         _split_parallel_assigns(fn, set(ref.get("parallel", {}).get(q, [])), stats)
         _desugar_comps(fn, set(ref.get("comps", {}).get(q, [])), stats,
                        loopbuilt=frozenset(ref.get("loopbuilt", {}).get(q, [])), ref_ncomps=ref.get("ncomps", {}).get(q, 0))
